@@ -192,6 +192,46 @@ def mixed_file(ck, recs, G, seed):
     shutil.rmtree(d, ignore_errors=True)
 
 
+def per_sample_states(ck, recs, G, seed):
+    """One mutation whose copy-number state differs from sample to sample (3/1 in one biopsy, 1/1 in the next, LOH in a
+    third): every sample's grid must be that of its own row - whatever states the samples before it had (states with
+    more genotypes before states with fewer, and the reverse)."""
+    rnd = random.Random(seed + 19)
+    d = env.scratch("c05_per_sample")
+    ordered = sorted(recs, key=lambda r_: (r_["cfg"]["major"] + r_["cfg"]["minor"], r_["cfg"]["major"]))
+    lo, hi = ordered[: max(3, len(ordered) // 4)], ordered[-max(3, len(ordered) // 4):]
+    rows, plan = [], []
+    for k in range(10):
+        trip = [rnd.choice(hi), rnd.choice(ordered), rnd.choice(lo)]
+        if k % 2:
+            trip.reverse()
+        plan.append(trip)
+        for si, rec in enumerate(trip):
+            cfg = rec["cfg"]
+            rows.append({"mutation_id": "ps%02d" % k, "sample_id": "S%d" % (si + 1), "ref_counts": 20 + 3 * k + si, "alt_counts": 5 + k + 2 * si, "major_cn": cfg["major"], "minor_cn": cfg["minor"],
+                         "normal_cn": cfg["normal"], "tumour_content": repr(cfg["t"][0] / cfg["t"][1]), "error_rate": repr(cfg["eps"][0] / cfg["eps"][1])})
+    rnd.shuffle(rows)
+    p = os.path.join(d, "per_sample.tsv")
+    write_rows(p, rows)
+    for density in ("binomial", "beta-binomial"):
+        data, samples = load(p, density, G, 400.0)
+        by = {dp.name: dp for dp in data}
+        for k, trip in enumerate(plan):
+            dp = by.get("ps%02d" % k)
+            ck.evaluations += 3
+            if dp is None or dp.value.shape[0] != 3:
+                ck.violation("C05|per_sample|missing", "mutation ps%02d was not loaded with 3 sample rows" % k, {"cfgs": [r_["cfg"] for r_ in trip]})
+                continue
+            for si, rec in enumerate(trip):
+                want = exact_grid(rec, 20 + 3 * k + si, 5 + k + 2 * si, density, Fraction(400) if density != "binomial" else None)
+                if float(np.max(np.abs(dp.value[si] - want))) > 1e-9 * (1 + float(np.max(np.abs(want)))):
+                    ck.violation("C05|per_sample|row", "a mutation whose copy-number state differs per sample (%s): the %s grid of sample %d is not that of its own row (max dev %.3g)" % (
+                        [(r_["cfg"]["major"], r_["cfg"]["minor"]) for r_ in trip], density, si + 1, float(np.max(np.abs(dp.value[si] - want)))), {"cfgs": [r_["cfg"] for r_ in trip], "sample": si + 1, "density": density})
+                    break
+    ck.nontrivial("per_sample_states")
+    shutil.rmtree(d, ignore_errors=True)
+
+
 def cluster_part(ck):
     """A pre-clustered data point = sum of member grids; outlier terms = log p, log(1-p) times cluster size."""
     d = env.scratch("c05_cluster")
@@ -305,6 +345,7 @@ def run(corrupt=None):
         ck.nontrivial(json.dumps(rec["cfg"], sort_keys=True))
     mixed_file(ck, recs, G, ck.seed)
     mixed_file(ck, recs, G, ck.seed + 1)
+    per_sample_states(ck, recs, G, ck.seed)
     cluster_part(ck)
     lossprob.model_runs(ck, thorough)
     lossprob.bind(ck, "C05", 240 if thorough else 60, (0, 3), ck.seed, want_order=False, spec_verdict=True)
